@@ -128,15 +128,23 @@ theorem C01_mixture_rel_roundtrip (r : Rat) (h0 : 0 ≤ r) (h100 : r ≤ 100) (h
     parseMixture (printMix { abs := none, rel := some r } true) = .ok { rel := some r } :=
   mixture_rel_roundtrip r h0 h100 hok
 
-/-- **C01 / C11 (the text form of a distribution reproduces its parameters, characters)**: `|gauss(a, b)|`, `|schulz_zimm(a, b)|`
-(a ≠ b) and `|log_normal(a, b)|` read back as the same family with the same parameters — through the substring dispatch of
-`get_distribution`, `strip`, `startswith` and the model of `ast.literal_eval` — for all parameters whose printed forms satisfy the
-decidable side condition `DistNumOK` (reads back as the number through the literal syntax; digits, `.`, `e`, sign only; starts with a
-digit). -/
+/-- **C01 / C11 (the text form of a distribution reproduces its parameters, characters)**: for each of the six families the printed form
+reads back as the same family with the same parameters — through the substring dispatch of `get_distribution`, `strip`, `startswith`
+and, per family, the model of `ast.literal_eval` (tuple or parenthesised number), `float` of a slice (poisson) or integer bounds
+(uniform) — for all parameters whose printed forms satisfy the decidable side condition `TokOK text value` (the text reads back as the
+value through the literal syntax; digits, `.`, `e`, sign only; starts with a digit); `DistNumOK w` is `TokOK (repr w) w`. -/
 theorem C01_distribution_roundtrip (a b : Rat) (ha : DistNumOK a) (hb : DistNumOK b) :
     parseDist (printDist { fam := .gauss, params := [a, b] }) = .ok { fam := .gauss, params := [a, b] } ∧
     parseDist (printDist { fam := .logNormal, params := [a, b] }) = .ok { fam := .logNormal, params := [a, b] } ∧
-    (a ≠ b → parseDist (printDist { fam := .schulzZimm, params := [a, b] }) = .ok { fam := .schulzZimm, params := [a, b] }) :=
-  ⟨dist_gauss_roundtrip a b ha hb, dist_logNormal_roundtrip a b ha hb, fun hab => dist_schulzZimm_roundtrip a b hab ha hb⟩
+    (a ≠ b → parseDist (printDist { fam := .schulzZimm, params := [a, b] }) = .ok { fam := .schulzZimm, params := [a, b] }) ∧
+    parseDist (printDist { fam := .florySchulz, params := [a] }) = .ok { fam := .florySchulz, params := [a] } ∧
+    (parseFloat (numStr a) = .ok a → parseDist (printDist { fam := .poisson, params := [a] }) = .ok { fam := .poisson, params := [a] }) :=
+  ⟨dist_gauss_roundtrip a b ha hb, dist_logNormal_roundtrip a b ha hb, fun hab => dist_schulzZimm_roundtrip a b hab ha hb,
+   dist_florySchulz_roundtrip a ha, fun hpf => dist_poisson_roundtrip a ha hpf⟩
+
+/-- **C01 / C11 (uniform)**: whole-number bounds printed as integers read back as the same bounds -/
+theorem C01_uniform_roundtrip (a b : Rat) (ha : TokOK (intStr a) a) (hb : TokOK (intStr b) b) (hta : truncRat a = a) (htb : truncRat b = b) :
+    parseDist (printDist { fam := .uniform, params := [a, b] }) = .ok { fam := .uniform, params := [a, b] } :=
+  dist_uniform_roundtrip a b ha hb hta htb
 
 end GBS.P
